@@ -1229,3 +1229,91 @@ def q_register_epoch(cfg):
     res.count('returns of register_thread', n)
     res.floor('returns of register_thread', 2)
     return res
+
+
+def q_sink(cfg):
+    """Q-15: the free sink frees; Q-16: resume re-initialises what the constructor initialises"""
+    from ..engine import dominators
+    res = RuleResult('Q-15/16', 'Q-15 the end of the pipeline really frees: qsbr::deallocate calls free_aligned on its pointer argument on every path, deallocation_request::deallocate hands its own pointer to qsbr::deallocate on every path - otherwise every deferred deallocation "runs" and the memory is never returned. Q-16 the two sites that (re)register a thread agree: qsbr_resume assigns every per-thread bookkeeping field the constructor initialises (last seen epochs from register_thread(), quiescent-state counter 0, paused false, fresh orphan-list nodes) with the same value - a resumed thread with a stale counter never leaves the previous epoch and the epoch can no longer advance')
+
+    def sig(f, o, depth=0):
+        e = f.strip_casts(o)
+        if not isinstance(e, dict) or depth > 8:
+            return '?'
+        k = e.get('k')
+        if k == 'this':
+            return 'this'
+        if k == 'int':
+            return str(e.get('v'))
+        if k == 'bool':
+            return 'true' if e.get('v') else 'false'
+        if k == 'member':
+            return sig(f, e['base'], depth + 1) + '.' + e.get('name', '?')
+        if k == 'ref':
+            for i, p in enumerate(f.params):
+                if p['did'] == e.get('did'):
+                    return 'p%d' % i
+            return e.get('name', '?')
+        if k == 'call':
+            if e.get('ck') == 'ctor' and (e.get('copy') or e.get('move')) and len(e.get('args', [])) == 1:
+                return sig(f, e['args'][0], depth + 1)
+            ob = sig(f, e['obj'], depth + 1) + '.' if e.get('obj') is not None else ''
+            return '%s%s(%s)' % (ob, e.get('name'), ','.join(sig(f, a, depth + 1) for a in e.get('args', [])))
+        if k == 'initlist':
+            return '{%s}' % ','.join(sig(f, a, depth + 1) for a in e.get('args', []))
+        return k or '?'
+    # ---- Q-15
+    for f in cfg.functions:
+        if not f.blocks:
+            continue
+        if f.cls == Q and f.short == 'deallocate':
+            want, arg = 'free_aligned', 'p0'
+        elif f.cls == DREQ and f.short == 'deallocate':
+            want, arg = 'deallocate', 'this.pointer'
+        else:
+            continue
+        res.count('sink functions')
+        res.functions.add(f.sig)
+        dom = dominators(f)
+        exit_doms = dom.get(f.exit, set())
+        calls = [(b, i, e) for b, i, e in f.elements() if e.get('k') == 'call' and e.get('name') == want and not is_assert_elem(e) and (want != 'deallocate' or (e.get('callee') or '').startswith(Q + '::deallocate'))]
+        ok = len(calls) == 1 and calls[0][0] in exit_doms and calls[0][2].get('args') and sig(f, calls[0][2]['args'][0]) == arg
+        res.ob(ok, {'rule': 'Q-15', 'function': sh(f.name), 'site': fileline(f.loc), 'verdict': 'discharged' if ok else 'VIOLATION'})
+        if not ok:
+            res.find(f, f.loc, '%s does not call %s(%s) exactly once on every path: deferred deallocations are executed without the memory ever being returned (or with another pointer)' % (sh(f.name), want, arg), key='Q-15:%s' % ('qsbr' if f.cls == Q else 'request'), config=cfg.name)
+    # ---- Q-16
+    ctor = [f for f in cfg.functions if f.blocks and f.cls == PT and f.d.get('ctor') and not f.params]
+    resume = fn(cfg, PT, 'qsbr_resume')
+    resume = (resume[0] if resume else None) if isinstance(resume, list) else resume
+    EXEMPT = {'previous_interval_dealloc_requests': 'request list: asserted empty on resume', 'current_interval_dealloc_requests': 'request list: asserted empty on resume',
+              'current_interval_total_dealloc_size': 'statistics accumulator of the (empty) current list', 'active_ptrs': 'debug registry: asserted empty on resume'}
+    if len(ctor) == 1 and resume is not None and resume.blocks:
+        c = ctor[0]
+        res.count('registration sites', 2)
+        res.functions.add(c.sig)
+        res.functions.add(resume.sig)
+        cinit = {e.get('field'): sig(c, e['e']) for b, i, e in c.elements() if e.get('k') == 'init' and e.get('field') and e.get('e') is not None}
+        rasg = {}
+        for b, i, e in resume.elements():
+            if is_assert_elem(e):
+                continue
+            if e.get('k') == 'binop' and e.get('op') == '=':
+                l = resume.strip_casts(e['l'])
+                if isinstance(l, dict) and l.get('k') == 'member':
+                    rasg[l.get('name')] = sig(resume, e['r'])
+            elif e.get('k') == 'call' and e.get('ck') == 'op' and e.get('op') == '=' and len(e.get('args', [])) == 2:
+                l = resume.strip_casts(e['args'][0])
+                if isinstance(l, dict) and l.get('k') == 'member':
+                    rasg[l.get('name')] = sig(resume, e['args'][1])
+        for fld, s_ in sorted(cinit.items()):
+            if fld in EXEMPT:
+                continue
+            got = rasg.get(fld)
+            ok = got is not None and got.replace('instance().', '').replace('this.', '') == s_.replace('instance().', '').replace('this.', '')
+            res.ob(ok, {'rule': 'Q-16', 'field': fld, 'constructor': s_, 'qsbr_resume': got, 'verdict': 'discharged' if ok else 'VIOLATION'})
+            if not ok:
+                res.find(resume, resume.loc, 'qsbr_resume %s `%s` (the constructor initialises it with %s): a resumed thread must start with the same bookkeeping as a new one - e.g. with a stale quiescent-state counter it never removes itself from the previous epoch, the epoch cannot advance and no deferred deallocation is executed any more' % ('does not re-initialise' if got is None else 'assigns %s to' % got, fld, s_), key='Q-16:%s' % fld, config=cfg.name)
+    else:
+        res.incompl('Q-16: constructor / qsbr_resume of qsbr_per_thread not found')
+    res.floor('sink functions', 2)
+    return res
